@@ -418,8 +418,11 @@ def main():
         preload()
         if counters() != {"mesh": 0, "coefficient": 0, "constant": 0}:
             raise SystemExit(f"zygote is not pristine: {counters()}")
+        import gc
         import signal
 
+        gc.collect()
+        gc.freeze()       # keeps the collector from touching (= copying) the imported modules in every child
         for job in jobs:
             r, w = os.pipe()
             pid = os.fork()
